@@ -24,7 +24,7 @@ Proof. induction 1 as [|r l Hr Hl IH]; cbn [first_succ]; [reflexivity|]. rewrite
 Section Reorder.
 Open Scope Z_scope.
 Variable c : option Z.                      (* the next character, if any *)
-Definition live (s : iset) : bool := match c with Some x => mem s x | None => false end.
+Definition alive (s : iset) : bool := match c with Some x => mem s x | None => false end.
 
 (** items in the original order: (intersects a later alternative, first set, result) *)
 Definition item := (bool * (iset * res))%type.
@@ -37,25 +37,25 @@ Fixpoint sep (l : list item) : Prop :=
   end.
 
 Lemma switch_reorder (l : list item) (sel : res) :
-  (forall fl s r, In (fl, (s, r)) l -> is_succ r = true -> live s = true) ->
+  (forall fl s r, In (fl, (s, r)) l -> is_succ r = true -> alive s = true) ->
   sep l ->
-  (forall s r, In (false, (s, r)) l -> live s = true -> sel = r) ->
-  ((forall s r, In (false, (s, r)) l -> live s = false) -> is_succ sel = false) ->
+  (forall s r, In (false, (s, r)) l -> alive s = true -> sel = r) ->
+  ((forall s r, In (false, (s, r)) l -> alive s = false) -> is_succ sel = false) ->
   first_succ (map (fun i => snd (snd i)) l) =
   first_succ (map (fun i => snd (snd i)) (filter fst l) ++ [sel]).
 Proof.
   induction l as [|[fl [s r]] l IH]; intros F1 Hsep Hsel1 Hsel2; cbn [map filter first_succ app fst snd].
   - rewrite Hsel2; [reflexivity|]. intros s r [].
   - destruct Hsep as [Hs Hsep].
-    assert (F1' : forall fl0 s0 r0, In (fl0, (s0, r0)) l -> is_succ r0 = true -> live s0 = true) by (intros; eapply F1; [right|]; eauto).
+    assert (F1' : forall fl0 s0 r0, In (fl0, (s0, r0)) l -> is_succ r0 = true -> alive s0 = true) by (intros; eapply F1; [right|]; eauto).
     destruct fl; cbn [map first_succ app fst snd].
     + destruct (is_succ r) eqn:Er; [reflexivity|].
       apply IH; auto.
       * intros s0 r0 Hin. apply Hsel1. right. exact Hin.
       * intros Hno. apply Hsel2. intros s0 r0 [E|Hin]; [discriminate|]. eapply Hno; eauto.
     + destruct (is_succ r) eqn:Er.
-      * (* the unordered item succeeds: it is live, every later ordered item is dead *)
-        assert (Hl : live s = true) by (eapply F1; [left; reflexivity|exact Er]).
+      * (* the unordered item succeeds: it is alive, every later ordered item is dead *)
+        assert (Hl : alive s = true) by (eapply F1; [left; reflexivity|exact Er]).
         rewrite (Hsel1 s r (or_introl eq_refl) Hl).
         rewrite first_succ_app. cbn [first_succ]. rewrite Er.
         rewrite first_succ_all_fail; [reflexivity|].
@@ -63,12 +63,27 @@ Proof.
         apply filter_In in Hin as [Hin _].
         destruct (is_succ r1) eqn:E1; [|reflexivity]. exfalso.
         pose proof (F1' _ _ _ Hin E1) as Hl0. specialize (Hs eq_refl). rewrite Forall_forall in Hs. specialize (Hs _ Hin). cbn [fst snd] in Hs.
-        unfold live in *. destruct c as [x|]; [|discriminate]. rewrite (Hs x Hl) in Hl0. discriminate.
+        unfold alive in *. destruct c as [x|]; [|discriminate]. rewrite (Hs x Hl) in Hl0. discriminate.
       * apply IH; auto.
         -- intros s0 r0 Hin. apply Hsel1. right. exact Hin.
-        -- intros Hno. destruct (live s) eqn:Hl.
+        -- intros Hno. destruct (alive s) eqn:Hl.
            ++ rewrite (Hsel1 s r (or_introl eq_refl) Hl). exact Er.
            ++ apply Hsel2. intros s0 r0 [E|Hin]; [inv E; exact Hl|]. eapply Hno; eauto.
+Qed.
+
+Lemma uniq_live (l : list item) s1 r1 s2 r2 :
+  sep l -> In (false, (s1, r1)) l -> In (false, (s2, r2)) l -> alive s1 = true -> alive s2 = true -> (s1, r1) = (s2, r2).
+Proof.
+  induction l as [|[fl [s r]] l IH]; intros Hsep H1 H2 L1 L2; [destruct H1|].
+  destruct Hsep as [Hs Hsep].
+  assert (Hx : forall sa ra sb rb, (false, (sa, ra)) = (fl, (s, r)) -> In (false, (sb, rb)) l -> alive sa = true -> alive sb = true -> False).
+  { intros sa ra sb rb E Hin La Lb. inv E. specialize (Hs eq_refl). rewrite Forall_forall in Hs. specialize (Hs _ Hin). cbn [fst snd] in Hs.
+    unfold alive in *. destruct c as [x|]; [|discriminate]. rewrite (Hs x La) in Lb. discriminate. }
+  destruct H1 as [E1|H1], H2 as [E2|H2].
+  - congruence.
+  - exfalso. eapply Hx; [symmetry; exact E1|exact H2|exact L1|exact L2].
+  - exfalso. eapply Hx; [symmetry; exact E2|exact H1|exact L2|exact L1].
+  - apply IH; auto.
 Qed.
 End Reorder.
 
@@ -92,6 +107,136 @@ Proof.
   - rewrite IH. eexists; reflexivity.
 Qed.
 End AltFirst.
+
+(** * list facts about the way [opt] partitions and orders the alternatives *)
+From Coq Require Import Permutation.
+
+Lemma place_cases_perm l : forall maxv acc, Permutation (place_cases l maxv acc) (acc ++ l).
+Proof.
+  induction l as [|[s e] l IH]; intros maxv acc; cbn [place_cases].
+  - rewrite app_nil_r. apply Permutation_refl.
+  - destruct (Z.ltb maxv (len s)).
+    + eapply Permutation_trans; [apply IH|]. rewrite <- app_assoc. apply Permutation_refl.
+    + eapply Permutation_trans; [apply IH|]. cbn [app]. apply Permutation_middle.
+Qed.
+
+Lemma zip_filter {A B} (P : A -> B -> Prop) (f : bool -> bool) :
+  forall (la : list A) (lb : list B), Forall2 P la lb -> forall (fl : list bool) (S : list iset),
+  Forall2 (fun x y => fst x = fst y /\ P (snd x) (snd y))
+    (map snd (filter (fun x => f (fst x)) (combine fl (combine S la))))
+    (map snd (filter (fun x => f (fst x)) (combine fl (combine S lb)))).
+Proof.
+  induction 1 as [|a b la lb Hab Hrest IH]; intros fl S.
+  - destruct S; cbn [combine]; destruct fl; cbn; constructor.
+  - destruct S as [|s S]; [destruct fl; cbn; constructor|].
+    destruct fl as [|b0 fl]; [cbn; constructor|].
+    cbn [combine filter fst]. destruct (f b0); cbn [map snd]; [constructor; [cbn; auto|apply IH]|apply IH].
+Qed.
+
+Lemma in_combine_map_F2 {A B C} (F : A -> C) (R : A -> B -> Prop) la lb :
+  Forall2 R la lb -> forall s r, In (s, r) (combine (map F la) lb) -> exists a, In a la /\ s = F a /\ R a r.
+Proof.
+  induction 1 as [|a b la lb Hab Hrest IH]; intros s r Hin; [destruct Hin|].
+  cbn [map combine] in Hin. destruct Hin as [E|Hin].
+  - inv E. exists a. split; [left; reflexivity|auto].
+  - destruct (IH _ _ Hin) as (a0 & H1 & H2 & H3). exists a0. split; [right; exact H1|auto].
+Qed.
+
+Lemma Forall2_in_l {A B} (P : A -> B -> Prop) la lb : Forall2 P la lb -> forall a, In a la -> exists b, In b lb /\ P a b.
+Proof.
+  induction 1 as [|a b la lb Hab Hrest IH]; intros x Hin; [destruct Hin|].
+  destruct Hin as [<-|Hin]; [exists b; split; [left; reflexivity|exact Hab]|].
+  destruct (IH _ Hin) as (y & H1 & H2). exists y. split; [right; exact H1|exact H2].
+Qed.
+Lemma Forall2_in_r {A B} (P : A -> B -> Prop) la lb : Forall2 P la lb -> forall b, In b lb -> exists a, In a la /\ P a b.
+Proof.
+  induction 1 as [|a b la lb Hab Hrest IH]; intros x Hin; [destruct Hin|].
+  destruct Hin as [<-|Hin]; [exists a; split; [left; reflexivity|exact Hab]|].
+  destruct (IH _ Hin) as (y & H1 & H2). exists y. split; [right; exact H1|exact H2].
+Qed.
+
+Lemma sep_inter_flags (S : list iset) : Forall Inv S -> forall rs : list res, sep (combine (inter_flags S) (combine S rs)).
+Proof.
+  induction 1 as [|s S Hs HS IH]; intros rs; [exact I|].
+  destruct rs as [|r rs]; [exact I|].
+  cbn [inter_flags combine sep]. split; [|apply IH].
+  intros Hfl. apply Forall_forall. intros [fl0 [s0 r0]] Hin x Hx. cbn [fst snd].
+  apply in_combine_r in Hin. apply in_combine_l in Hin.
+  destruct S as [|s1 S1]; [destruct Hin|].
+  destruct (mem s0 x) eqn:E0; [|reflexivity]. exfalso.
+  assert (existsb (fun s' => intersects s s') (s1 :: S1) = true).
+  { apply existsb_exists. exists s0. split; [exact Hin|]. rewrite Forall_forall in HS.
+    apply intersects_spec; auto. exists x. auto. }
+  congruence.
+Qed.
+
+Lemma find_case_keys_of_some (cs : list (iset * expr)) c e1 :
+  find_case (map (fun x => (keys_of (fst x), snd x)) cs) c = Some e1 -> exists s, In (s, e1) cs /\ mem s c = true.
+Proof.
+  unfold find_case. induction cs as [|[s e] cs IH]; cbn [map find_case_keys fst snd option_map]; [discriminate|].
+  destruct (existsb (Z.eqb c) (keys_of s)) eqn:E.
+  - cbn [option_map snd]. intros H. inv H. exists s. split; [left; reflexivity|].
+    apply existsb_exists in E as (y & Hy & Hc). apply Z.eqb_eq in Hc. subst y.
+    unfold keys_of in Hy. apply filter_In in Hy as [Hy _]. apply elements_mem. exact Hy.
+  - intros H. destruct (IH H) as (s0 & H1 & H2). exists s0. split; [right; exact H1|exact H2].
+Qed.
+
+Lemma find_case_keys_of_none (cs : list (iset * expr)) c : valid_rune c = true ->
+  find_case (map (fun x => (keys_of (fst x), snd x)) cs) c = None -> forall s e, In (s, e) cs -> mem s c = false.
+Proof.
+  unfold find_case. intros Hv. induction cs as [|[s e] cs IH]; cbn [map find_case_keys fst snd option_map]; intros H s0 e0 Hin; [destruct Hin|].
+  destruct (existsb (Z.eqb c) (keys_of s)) eqn:E; [discriminate|].
+  destruct Hin as [Ei|Hin]; [|eapply IH; eauto]. inv Ei.
+  destruct (mem s0 c) eqn:Em; [|reflexivity]. exfalso.
+  assert (existsb (Z.eqb c) (keys_of s0) = true); [|congruence].
+  apply existsb_exists. exists c. split; [|apply Z.eqb_refl]. unfold keys_of. apply filter_In. split; [apply elements_mem; exact Em|exact Hv].
+Qed.
+
+Lemma map_snd_snd_combine {A B C} : forall (lc : list C) (la : list A) (lb : list B),
+  length la = length lc -> length lb = length lc ->
+  map (fun i => snd (snd i)) (combine la (combine lb lc)) = lc.
+Proof.
+  induction lc as [|c lc IH]; intros la lb Ha Hb.
+  - destruct la; [|discriminate]. reflexivity.
+  - destruct la as [|a la]; [discriminate|]. destruct lb as [|b lb]; [discriminate|].
+    cbn [combine map snd]. f_equal. apply IH; cbn in *; lia.
+Qed.
+
+Lemma inter_flags_length l : length (inter_flags l) = length l.
+Proof. induction l as [|s l IH]; cbn [inter_flags length]; [reflexivity|]. rewrite IH. reflexivity. Qed.
+
+Lemma in_unord {A} (l : list (bool * A)) y : In y (map snd (filter (fun x => negb (fst x)) l)) <-> In (false, y) l.
+Proof.
+  split.
+  - intros H. apply in_map_iff in H as ([fl x] & E & Hin). cbn in E. subst x. apply filter_In in Hin as [Hin Hf].
+    cbn in Hf. destruct fl; [discriminate|]. exact Hin.
+  - intros H. apply in_map_iff. exists (false, y). split; [reflexivity|]. apply filter_In. split; [exact H|reflexivity].
+Qed.
+
+Lemma Forall2_map_snd {A B C D} (P : B -> D -> Prop) (la : list (A * B)) (lb : list (C * D)) :
+  Forall2 (fun x y => P (snd x) (snd y)) la lb -> Forall2 P (map snd la) (map snd lb).
+Proof. induction 1; cbn [map]; constructor; auto. Qed.
+
+Lemma F2_impl {A B} (P Q : A -> B -> Prop) : (forall a b, P a b -> Q a b) -> forall la lb, Forall2 P la lb -> Forall2 Q la lb.
+Proof. intros H la lb H2. induction H2; constructor; auto. Qed.
+Lemma F2_length {A B} (P : A -> B -> Prop) la lb : Forall2 P la lb -> length la = length lb.
+Proof. induction 1; cbn; auto. Qed.
+Lemma F2_map_l {A B C} (f : A -> C) (P : C -> B -> Prop) la lb : Forall2 (fun a b => P (f a) b) la lb -> Forall2 P (map f la) lb.
+Proof. induction 1; cbn [map]; constructor; auto. Qed.
+
+Lemma uniform_fuel (F : nat -> expr -> option out) :
+  (forall n m e x, n <= m -> F n e = Some x -> F m e = Some x)%nat ->
+  forall es rs, Forall2 (fun e r => exists n evs, F n e = Some (r, evs)) es rs ->
+  exists N, Forall2 (fun e (r : res) => exists evs, F N e = Some (r, evs)) es rs.
+Proof.
+  intros mono es rs H. induction H as [|e r es rs (n & evs & He) Hrest (N & IH)]; [exists 0%nat; constructor|].
+  exists (Nat.max n N). constructor.
+  - exists evs. eapply mono; [|exact He]. apply Nat.le_max_l.
+  - eapply F2_impl; [|exact IH]. intros a b (evs0 & Hab). exists evs0. eapply mono; [|exact Hab]. apply Nat.le_max_r.
+Qed.
+
+Lemma first_succ_single r : first_succ [r] = r.
+Proof. cbn. destruct r; reflexivity. Qed.
 
 (** * the rewrite preserves the semantics *)
 Section Opt.
@@ -123,6 +268,15 @@ Proof.
   intros H. pose proof (Hbuf c H) as V. unfold valid_rune in V.
   apply andb_true_iff in V as [V _]. apply andb_true_iff in V as [V1 V2]. apply Z.leb_le in V1, V2. lia.
 Qed.
+
+Lemma esize_pos e : 1 <= esize e.
+Proof. exact (Total.esize_pos g ptx penv tab rank Hwf e). Qed.
+Lemma esize_in x es : In x es -> esize x <= fold_right (fun y a => esize y + a) 0 es.
+Proof. exact (Total.esize_in g ptx penv tab rank Hwf x es). Qed.
+Lemma hr_app l1 l2 : hr rank (l1 ++ l2) = Nat.max (hr rank l1) (hr rank l2).
+Proof. exact (Total.hr_app g penv tab rank Hwf l1 l2). Qed.
+Lemma hr_flat_map (f : expr -> list nat) x xs : In x xs -> hr rank (f x) <= hr rank (flat_map f xs).
+Proof. exact (Total.hr_flat_map g ptx penv tab rank Hwf f x xs). Qed.
 
 Lemma g'_nth r : nth_error g' r =
   match nth_error g r with Some (RBody b) => Some (RBody (tr (br r) b)) | x => x end.
@@ -189,4 +343,371 @@ Proof.
       exists m1. rewrite E1. eexists; reflexivity.
 Qed.
 
+
+Definition sets_of (es : list expr) : list iset := map (fun x => snd (fs T x)) es.
+Definition items_of (es : list expr) := combine (inter_flags (sets_of es)) (combine (sets_of es) (map (opt T) es)).
+Definition unord_of (es : list expr) := map snd (filter (fun x => negb (fst x)) (items_of es)).
+Definition ordered_of (es : list expr) := map (fun x => snd (snd x)) (filter (fun x => fst x) (items_of es)).
+
+Lemma opt_alt es : opt T (EAlt es) =
+  if negb (forallb (fun x => fst (fs T x)) es) then EAlt (map (opt T) es)
+  else if Nat.leb (length es) (2 + length (filter (fun b => b) (inter_flags (sets_of es)))) then EAlt (map (opt T) es)
+  else match rev (place_cases (unord_of es) 0 []) with
+       | [] => EAlt (map (opt T) es)
+       | (_, d) :: before =>
+           if existsb (fun x => too_big (fst x)) before then EAlt (map (opt T) es)
+           else let sw := ESwitch (map (fun x => (keys_of (fst x), snd x)) (rev before)) d in
+                match ordered_of es with [] => sw | _ => EAlt (ordered_of es ++ [sw]) end
+       end.
+Proof.
+  cbn [opt]. unfold unord_of, ordered_of, items_of, sets_of. rewrite !map_map.
+  replace (forallb fst (map (fs T) es)) with (forallb (fun x => fst (fs T x)) es); [reflexivity|].
+  induction es as [|x es IH]; cbn [forallb map]; [reflexivity|]. rewrite IH. reflexivity.
+Qed.
+
+(** the rewritten choice: ordered alternatives first, then the switch *)
+Lemma alt_rewritten es p sd d before :
+  p <= length buf ->
+  forallb ranges_ok es = true ->
+  forallb (fun x => fst (fs T x)) es = true ->
+  (forall x, In x es -> has_result g ptx buf penv x p) ->
+  (forall x, In x es -> preserved x p) ->
+  rev (place_cases (unord_of es) 0%Z []) = (sd, d) :: before ->
+  forall n r, alt_ev (ev n) es p = Some r ->
+  exists m evs', ev' m (match ordered_of es with
+                        | [] => ESwitch (map (fun x => (keys_of (fst x), snd x)) (rev before)) d
+                        | _ => EAlt (ordered_of es ++ [ESwitch (map (fun x => (keys_of (fst x), snd x)) (rev before)) d])
+                        end) p = Some (fst r, evs').
+Proof.
+  intros Hp Hr Hc Htot Hpres Hplace n r Hder.
+  set (sw := ESwitch (map (fun x => (keys_of (fst x), snd x)) (rev before)) d).
+  rewrite forallb_forall in Hr, Hc.
+  (* results of every alternative, original and translated *)
+  assert (Hrs : exists rs, Forall2 (fun e r0 => (exists n0 evs, ev n0 e p = Some (r0, evs)) /\
+                                               (exists m0 evs, ev' m0 (opt T e) p = Some (r0, evs))) es rs).
+  { clear -Htot Hpres. induction es as [|x es IH]; [exists []; constructor|].
+    destruct IH as (rs & IH); [intros; apply Htot; right; auto|intros; apply Hpres; right; auto|].
+    destruct (Htot x (or_introl eq_refl)) as (n0 & [r0 evs0] & E0).
+    destruct (Hpres x (or_introl eq_refl) true n0 _ E0) as (m0 & evs1 & E1). cbn [fst tr] in E1.
+    exists (r0 :: rs). constructor; [|exact IH]. split; eauto. }
+  destruct Hrs as (rs & Hrs).
+  destruct (uniform_fuel (fun k e => ev k e p)) with (es := es) (rs := rs) as (N & HN).
+  { intros a b e x L. apply peg_ev_mono. exact L. }
+  { eapply F2_impl; [|exact Hrs]. intros a b [H _]. exact H. }
+  destruct (uniform_fuel (fun k e => ev' k e p)) with (es := map (opt T) es) (rs := rs) as (M & HM).
+  { intros a b e x L. apply peg_ev_mono. exact L. }
+  { apply F2_map_l. eapply F2_impl; [|exact Hrs]. intros a b [_ H]. exact H. }
+  pose proof (F2_length _ _ _ Hrs) as Hlen.
+  (* the original evaluates to the first success *)
+  destruct (alt_ev_first g ptx buf penv N es p rs HN) as (evsN & EN).
+  assert (Hfst : fst r = first_succ rs).
+  { pose proof (alt_ev_fuel g ptx buf penv _ _ _ _ _ (Nat.le_max_l n N) Hder) as A1.
+    pose proof (alt_ev_fuel g ptx buf penv _ _ _ _ _ (Nat.le_max_r n N) EN) as A2.
+    rewrite A1 in A2. inv A2. reflexivity. }
+  set (S0 := sets_of es) in *.
+  set (l := combine (inter_flags S0) (combine S0 rs)).
+  set (copt := nth_error buf p).
+  assert (Hmapl : map (fun i => snd (snd i)) l = rs).
+  { unfold l. apply map_snd_snd_combine; [rewrite inter_flags_length|]; unfold S0, sets_of; rewrite map_length; exact Hlen. }
+  (* success implies the first character is in the set *)
+  assert (F1 : forall fl s r0, In (fl, (s, r0)) l -> is_succ r0 = true -> alive copt s = true).
+  { intros fl s r0 Hin Hs. unfold l in Hin. apply in_combine_r in Hin.
+    destruct (in_combine_map_F2 (fun x => snd (fs T x)) _ _ _ HN _ _ Hin) as (e & He & -> & (evs & Ee)).
+    destruct r0 as [|p' f]; [discriminate|].
+    destruct (first_sound g T HT ptx buf penv Hbuf_range N e (Hr _ He) p p' f evs Hp Ee) as [A B].
+    destruct (B (A (Hc _ He))) as (c & Hc1 & Hc2). unfold alive, copt. rewrite Hc1. exact Hc2. }
+  assert (Hsep : sep l).
+  { unfold l. apply sep_inter_flags. unfold S0, sets_of. apply Forall_forall. intros s Hs.
+    apply in_map_iff in Hs as (e & <- & He). apply (fs_inv g T HT). apply Hr. exact He. }
+  (* unordered items: expressions and results side by side *)
+  assert (HU : Forall2 (fun x y => fst x = fst y /\ exists evs, ev' M (snd x) p = Some (snd y, evs))
+                 (unord_of es) (map snd (filter (fun x => negb (fst x)) l))).
+  { unfold unord_of, items_of, l. fold S0. apply (zip_filter (fun e' r0 => exists evs, ev' M e' p = Some (r0, evs)) negb). exact HM. }
+  assert (HO : Forall2 (fun e' r0 => exists evs, ev' M e' p = Some (r0, evs))
+                 (ordered_of es) (map (fun i => snd (snd i)) (filter fst l))).
+  { unfold ordered_of, items_of, l. fold S0.
+    rewrite <- !(map_map snd snd). apply Forall2_map_snd.
+    eapply F2_impl; [|apply (zip_filter (fun e' r0 => exists evs, ev' M e' p = Some (r0, evs)) (fun b => b)); exact HM].
+    intros a b [_ H]. exact H. }
+  (* the case list is a permutation of the unordered items *)
+  assert (Hperm : forall x, In x (unord_of es) <-> In x (rev before ++ [(sd, d)])).
+  { intros x. assert (E : place_cases (unord_of es) 0%Z [] = rev before ++ [(sd, d)]).
+    { rewrite <- (rev_involutive (place_cases _ _ _)). rewrite Hplace. reflexivity. }
+    rewrite <- E. pose proof (place_cases_perm (unord_of es) 0%Z []) as Pm. cbn [app] in Pm.
+    split; intros Hx; [eapply Permutation_in; [apply Permutation_sym; exact Pm|exact Hx]|eapply Permutation_in; [exact Pm|exact Hx]]. }
+  (* the default has a result *)
+  assert (Hd : exists rd evs, In (false, (sd, rd)) l /\ ev' M d p = Some (rd, evs)).
+  { assert (Hin : In (sd, d) (unord_of es)) by (apply Hperm; apply in_or_app; right; left; reflexivity).
+    destruct (Forall2_in_l _ _ _ HU _ Hin) as ([s1 r1] & H1 & H2 & (evs & H3)). cbn [fst snd] in *. subst s1.
+    exists r1, evs. split; [apply in_unord; exact H1|exact H3]. }
+  destruct Hd as (rd & evsd & Hdin & Hdev).
+  (* no success without a alive set *)
+  assert (Hdead : (forall s r0, In (false, (s, r0)) l -> alive copt s = false) -> is_succ rd = false).
+  { intros Hno. destruct (is_succ rd) eqn:E; [|reflexivity]. specialize (Hno sd rd Hdin). rewrite (F1 _ _ _ Hdin E) in Hno. discriminate. }
+  (* the switch *)
+  assert (Hsw : exists sel evs, ev' (S M) sw p = Some (sel, evs) /\
+                  (forall s r0, In (false, (s, r0)) l -> alive copt s = true -> sel = r0) /\
+                  ((forall s r0, In (false, (s, r0)) l -> alive copt s = false) -> is_succ sel = false)).
+  { unfold sw. cbn [peg_ev]. fold copt. destruct copt as [c|] eqn:Ec.
+    - assert (Hv : valid_rune c = true) by (apply Hbuf; eapply nth_error_In; exact Ec).
+      destruct (find_case (map (fun x => (keys_of (fst x), snd x)) (rev before)) c) as [e1|] eqn:Ef.
+      + destruct (find_case_keys_of_some _ _ _ Ef) as (s1 & Hin1 & Hm1).
+        assert (Hin : In (s1, e1) (unord_of es)) by (apply Hperm; apply in_or_app; left; exact Hin1).
+        destruct (Forall2_in_l _ _ _ HU _ Hin) as ([s1' r1] & H1 & H2 & (evs & H3)). cbn [fst snd] in *. subst s1'.
+        apply in_unord in H1.
+        exists r1, evs. split; [exact H3|]. split.
+        * intros s r0 Hin0 Hl0. assert (E : (s, r0) = (s1, r1)); [|congruence].
+          eapply (uniq_live (Some c)); eauto.
+        * intros Hno. specialize (Hno _ _ H1). unfold alive in Hno. congruence.
+      + exists rd, evsd. split; [exact Hdev|]. split; [|exact Hdead].
+        intros s r0 Hin0 Hl0. apply in_unord in Hin0.
+        destruct (Forall2_in_r _ _ _ HU _ Hin0) as ([s' e] & H1 & H2 & (evs & H3)). cbn [fst snd] in *. subst s'.
+        apply Hperm in H1. apply in_app_or in H1 as [H1|[H1|[]]].
+        * unfold alive in Hl0. rewrite (find_case_keys_of_none _ _ Hv Ef _ _ H1) in Hl0. discriminate.
+        * assert (e = d) by congruence. subst e. pose proof (peg_ev_det _ _ _ _ _ _ _ _ _ _ H3 Hdev) as E. congruence.
+    - exists rd, evsd. split; [exact Hdev|]. split; [|exact Hdead]. intros s r0 _ Hl0. discriminate. }
+  destruct Hsw as (sel & evss & Esw & Hsel1 & Hsel2).
+  pose proof (switch_reorder copt l sel F1 Hsep Hsel1 Hsel2) as Hre. rewrite Hmapl in Hre.
+  rewrite Hfst, Hre.
+  destruct (ordered_of es) as [|o1 os] eqn:Eo.
+  - assert (E : map (fun i => snd (snd i)) (filter fst l) = []) by (inversion HO; congruence).
+    rewrite E. cbn [app]. rewrite first_succ_single.
+    exists (S M), evss. exact Esw.
+  - rewrite <- Eo in *.
+    assert (HA : Forall2 (fun e' r0 => exists evs, ev' (S M) e' p = Some (r0, evs))
+                   (ordered_of es ++ [sw]) (map (fun i => snd (snd i)) (filter fst l) ++ [sel])).
+    { apply Forall2_app.
+      - eapply F2_impl; [|exact HO]. intros a b (evs & H). exists evs. eapply peg_ev_mono; [|exact H]. lia.
+      - constructor; [exists evss; exact Esw|constructor]. }
+    destruct (alt_ev_first g' ptx buf penv (S M) _ p _ HA) as (evsA & EA).
+    exists (S (S M)), evsA. rewrite Eo. rewrite Eo in EA. exact EA.
+Qed.
+
+
+Lemma tr_leaf b e : (match e with ESeq _ | EAlt _ | EAnd _ | ENot _ | EQuery _ | EStar _ | EPlus _ | EPush _ => False | _ => True end) -> tr b e = e.
+Proof. destruct b; [|reflexivity]. destruct e; cbn [tr opt]; intros H; try reflexivity; destruct H. Qed.
+
+Lemma tr_and b e : tr b (EAnd e) = EAnd (tr b e).   Proof. destruct b; reflexivity. Qed.
+Lemma tr_not b e : tr b (ENot e) = ENot (tr b e).   Proof. destruct b; reflexivity. Qed.
+Lemma tr_query b e : tr b (EQuery e) = EQuery (tr b e). Proof. destruct b; reflexivity. Qed.
+Lemma tr_star b e : tr b (EStar e) = EStar (tr b e). Proof. destruct b; reflexivity. Qed.
+Lemma tr_plus b e : tr b (EPlus e) = EPlus (tr b e). Proof. destruct b; reflexivity. Qed.
+Lemma tr_push b e : tr b (EPush e) = EPush (tr b e). Proof. destruct b; reflexivity. Qed.
+
+Ltac leaf_case :=
+  let b := fresh "b" in let n := fresh "n" in let r := fresh "r" in let H := fresh "H" in
+  intros b n r H; destruct n as [|n]; [discriminate|];
+  rewrite tr_leaf by exact I; exists (S n), (snd r); cbn [peg_ev] in *; rewrite H; destruct r; reflexivity.
+
+Theorem opt_preserved : forall k h s, Q k h s.
+Proof.
+  induction k as [k IHk] using lt_wf_ind. induction h as [h IHh] using lt_wf_ind.
+  induction s as [|s IHs]; intros e p Hp Hk Hh Hs Hl Hr; [pose proof (esize_pos e); lia|].
+  assert (Hsub : forall x q, p <= q -> q <= length buf -> local_ok x = true -> ranges_ok x = true ->
+                   (q = p -> hrank x <= h /\ esize x <= s) -> preserved x q).
+  { intros x q Hq Hqb Hlx Hrx Hc. destruct (Nat.eq_dec q p) as [->|Hne].
+    - destruct (Hc eq_refl). apply IHs; auto.
+    - apply (IHk (length buf - q)) with (h := hrank x) (s := esize x); auto; lia. }
+  destruct e; cbn [WF.local_ok] in Hl; cbn [ranges_ok] in Hr.
+  - leaf_case.
+  - leaf_case.
+  - leaf_case.
+  - (* EName *)
+    intros b n r0 H. destruct n as [|n]; [discriminate|]. rewrite tr_leaf by exact I. cbn [peg_ev] in H.
+    destruct (nth_error g r) as [[body|a|]|] eqn:Eg; try discriminate.
+    + pose proof (wf_rule g penv tab rank Hwf _ _ Eg) as W. cbn [rule_wf] in W.
+      apply andb_true_iff in W as [W Wh]. apply andb_true_iff in W as [Wl Wn].
+      destruct (rule_facts _ _ Eg) as [_ Wr].
+      assert (Hb : hrank body < h).
+      { unfold hrank, Total.hrank in *. cbn [WF.heads hr fold_right] in Hh.
+        assert (hr rank (WF.heads tab body) <= rk rank r).
+        { rewrite forallb_forall in Wh. clear -Wh. unfold hr. induction (WF.heads tab body) as [|y l IH]; cbn [fold_right]; [lia|].
+          assert (rk rank y < rk rank r) by (apply Nat.ltb_lt; apply Wh; left; reflexivity).
+          assert (fold_right (fun r0 a => Nat.max (S (rk rank r0)) a) 0 l <= rk rank r) by (apply IH; intros; apply Wh; right; auto).
+          lia. }
+        lia. }
+      destruct (ev n body p) as [[rb evsb]|] eqn:E; [|discriminate].
+      destruct (IHh (hrank body) Hb (esize body) body p Hp Hk (le_n _) (le_n _) Wl Wr (br r) n _ E) as (m & evs' & E').
+      cbn [fst] in E'. exists (S m). cbn [peg_ev]. rewrite g'_nth, Eg, E'.
+      destruct rb as [|p1 f1]; inv H; eexists; reflexivity.
+    + inv H. exists 1. cbn [peg_ev]. rewrite g'_nth, Eg. eexists; reflexivity.
+  - leaf_case.
+  - leaf_case.
+  - leaf_case.
+  - leaf_case.
+  - (* ESeq *)
+    intros b n r0 H. destruct n as [|n]; [discriminate|]. cbn [peg_ev] in H. rewrite tr_seq. cbn [esize] in Hs.
+    assert (Hseq : forall l q, p <= q -> q <= length buf -> forallb local_ok l = true -> forallb ranges_ok l = true ->
+                     fold_right (fun y a => esize y + a) 0 l <= s ->
+                     (q = p -> hrank (ESeq l) <= h) ->
+                     forall r1, seq_ev (ev n) l q = Some r1 -> exists m evs', seq_ev (ev' m) (map (tr b) l) q = Some (fst r1, evs')).
+    { induction l as [|x l IHl]; intros q Hq Hqb Hll Hrl Hsz Hc r1 Hd; cbn [seq_ev map] in *.
+      - inv Hd. exists 0. eexists; reflexivity.
+      - cbn [forallb fold_right] in *. apply andb_true_iff in Hll as [Hlx Hll]. apply andb_true_iff in Hrl as [Hrx Hrl].
+        destruct (ev n x q) as [[rx evsx]|] eqn:Ex; [|discriminate].
+        destruct (Hsub x q Hq Hqb Hlx Hrx) with (b := b) (n := n) (r := (rx, evsx)) as (m1 & evs1 & E1); [|exact Ex|].
+        { intros ->. specialize (Hc eq_refl). unfold hrank, Total.hrank in *. rewrite heads_seq_cons, hr_app in Hc. lia. }
+        cbn [fst] in E1. destruct rx as [|q1 f1].
+        + inv Hd. exists m1. rewrite E1. eexists; reflexivity.
+        + destruct (Total.ev_le g ptx buf penv _ _ _ _ _ _ Hqb Ex) as [L1 B1].
+          destruct (seq_ev (ev n) l q1) as [[r2 evs2]|] eqn:E2; [|discriminate].
+          destruct (IHl q1 ltac:(lia) B1 Hll Hrl ltac:(lia)) with (r1 := (r2, evs2)) as (m2 & evs2' & E2'); [|exact E2|].
+          { intros ->. assert (q = p) by lia. subst q. specialize (Hc eq_refl).
+            unfold hrank, Total.hrank in *. rewrite heads_seq_cons, hr_app in Hc.
+            destruct (WF.nul tab x) eqn:Enx; [lia|].
+            pose proof (consumes g ptx buf penv tab rank Hwf _ _ _ _ _ _ Hqb Hlx Enx Ex). lia. }
+          cbn [fst] in E2'. exists (Nat.max m1 m2).
+          rewrite (peg_ev_mono _ _ _ _ _ _ _ _ _ (Nat.le_max_l m1 m2) E1).
+          rewrite (seq_ev'_fuel _ _ _ _ _ (Nat.le_max_r m1 m2) E2').
+          destruct r2 as [|q2 f2]; inv Hd; eexists; reflexivity. }
+    destruct (Hseq es p (le_n _) Hp Hl Hr ltac:(lia) (fun _ => Hh) _ H) as (m & evs' & E).
+    exists (S m), evs'. exact E.
+  - (* EAlt *)
+    intros b n r0 H. destruct n as [|n]; [discriminate|]. cbn [peg_ev] in H. cbn [esize] in Hs.
+    assert (Hin : forall x, In x es -> local_ok x = true /\ ranges_ok x = true /\ hrank x <= h /\ esize x <= s).
+    { intros x Hx. rewrite forallb_forall in Hl, Hr. split; [auto|]. split; [auto|]. split.
+      - unfold hrank, Total.hrank in *. cbn [WF.heads] in Hh. pose proof (hr_flat_map (WF.heads tab) x es Hx). lia.
+      - pose proof (esize_in x es Hx). lia. }
+    assert (Hpres : forall x, In x es -> preserved x p).
+    { intros x Hx. destruct (Hin x Hx) as (A1 & A2 & A3 & A4). apply Hsub; auto. }
+    assert (Helem : forall b0, exists m evs', ev' m (EAlt (map (tr b0) es)) p = Some (fst r0, evs')).
+    { intros b0. destruct (alt_elementwise b0 es p Hpres n r0 H) as (m & evs' & E). exists (S m), evs'. exact E. }
+    destruct b; [|rewrite tr_alt_false; apply Helem].
+    unfold tr at 1. rewrite opt_alt.
+    destruct (negb (forallb (fun x => fst (fs T x)) es)) eqn:Ec; [apply (Helem true)|]. apply negb_false_iff in Ec.
+    destruct (Nat.leb (length es) (2 + length (filter (fun b => b) (inter_flags (sets_of es))))); [apply (Helem true)|].
+    destruct (rev (place_cases (unord_of es) 0%Z [])) as [|[sd d] before] eqn:Epl; [apply (Helem true)|].
+    destruct (existsb (fun x => too_big (fst x)) before); [apply (Helem true)|].
+    cbv zeta. eapply alt_rewritten; eauto.
+    intros x Hx. destruct (Hin x Hx) as (A1 & _).
+    exact (total g ptx buf penv tab rank Hwf _ _ _ x p Hp (le_n _) (le_n _) (le_n _) A1).
+  - (* EAnd *)
+    intros b n r0 H. destruct n as [|n]; [discriminate|]. cbn [peg_ev] in H. rewrite tr_and.
+    assert (Hsz : esize e <= s) by (cbn [esize] in Hs; lia).
+    destruct (ev n e p) as [[r1 evs1]|] eqn:E; [|discriminate].
+    destruct (Hsub e p (le_n _) Hp Hl Hr (fun _ => conj Hh Hsz) b n _ E) as (m & evs' & E'). cbn [fst] in E'.
+    exists (S m). cbn [peg_ev]. rewrite E'. destruct r1; inv H; eexists; reflexivity.
+  - (* ENot *)
+    intros b n r0 H. destruct n as [|n]; [discriminate|]. cbn [peg_ev] in H. rewrite tr_not.
+    assert (Hsz : esize e <= s) by (cbn [esize] in Hs; lia).
+    destruct (ev n e p) as [[r1 evs1]|] eqn:E; [|discriminate].
+    destruct (Hsub e p (le_n _) Hp Hl Hr (fun _ => conj Hh Hsz) b n _ E) as (m & evs' & E'). cbn [fst] in E'.
+    exists (S m). cbn [peg_ev]. rewrite E'. destruct r1; inv H; eexists; reflexivity.
+  - (* EQuery *)
+    intros b n r0 H. destruct n as [|n]; [discriminate|]. cbn [peg_ev] in H. rewrite tr_query.
+    assert (Hsz : esize e <= s) by (cbn [esize] in Hs; lia).
+    destruct (ev n e p) as [[r1 evs1]|] eqn:E; [|discriminate].
+    destruct (Hsub e p (le_n _) Hp Hl Hr (fun _ => conj Hh Hsz) b n _ E) as (m & evs' & E'). cbn [fst] in E'.
+    exists (S m). cbn [peg_ev]. rewrite E'. destruct r1; inv H; eexists; reflexivity.
+  - (* EStar *)
+    intros b n r0 H. destruct n as [|n]; [discriminate|]. cbn [peg_ev] in H. rewrite tr_star.
+    cbn [esize] in Hs. apply andb_true_iff in Hl as [Hne Hle]. apply negb_true_iff in Hne.
+    assert (Hsz : esize e <= s) by lia.
+    destruct (ev n e p) as [[r1 evs1]|] eqn:E; [|discriminate].
+    destruct (Hsub e p (le_n _) Hp Hle Hr (fun _ => conj Hh Hsz) b n _ E) as (m1 & evs1' & E1). cbn [fst] in E1.
+    destruct r1 as [|p1 f1].
+    + inv H. exists (S m1). cbn [peg_ev]. rewrite E1. eexists; reflexivity.
+    + pose proof (consumes g ptx buf penv tab rank Hwf _ _ _ _ _ _ Hp Hle Hne E) as Hc.
+      destruct (Total.ev_le g ptx buf penv _ _ _ _ _ _ Hp E) as [_ B1].
+      assert (Hl2 : local_ok (EStar e) = true) by (cbn [WF.local_ok]; rewrite Hne, Hle; reflexivity).
+      destruct (ev n (EStar e) p1) as [[r2 evs2]|] eqn:E2; [|discriminate].
+      destruct (IHk (length buf - p1) ltac:(lia) (hrank (EStar e)) (esize (EStar e)) (EStar e) p1 B1 (le_n _) (le_n _) (le_n _) Hl2 Hr b n _ E2) as (m2 & evs2' & E2').
+      cbn [fst] in E2'. rewrite tr_star in E2'.
+      exists (S (Nat.max m1 m2)). cbn [peg_ev].
+      rewrite (peg_ev_mono _ _ _ _ _ _ _ _ _ (Nat.le_max_l m1 m2) E1).
+      rewrite (peg_ev_mono _ _ _ _ _ _ _ _ _ (Nat.le_max_r m1 m2) E2').
+      destruct r2 as [|q2 f2]; inv H; eexists; reflexivity.
+  - (* EPlus *)
+    intros b n r0 H. destruct n as [|n]; [discriminate|]. cbn [peg_ev] in H. rewrite tr_plus.
+    cbn [esize] in Hs. apply andb_true_iff in Hl as [Hne Hle]. apply negb_true_iff in Hne.
+    assert (Hsz : esize e <= s) by lia.
+    destruct (ev n e p) as [[r1 evs1]|] eqn:E; [|discriminate].
+    destruct (Hsub e p (le_n _) Hp Hle Hr (fun _ => conj Hh Hsz) b n _ E) as (m1 & evs1' & E1). cbn [fst] in E1.
+    destruct r1 as [|p1 f1].
+    + inv H. exists (S m1). cbn [peg_ev]. rewrite E1. eexists; reflexivity.
+    + pose proof (consumes g ptx buf penv tab rank Hwf _ _ _ _ _ _ Hp Hle Hne E) as Hc.
+      destruct (Total.ev_le g ptx buf penv _ _ _ _ _ _ Hp E) as [_ B1].
+      assert (Hl2 : local_ok (EStar e) = true) by (cbn [WF.local_ok]; rewrite Hne, Hle; reflexivity).
+      destruct (ev n (EStar e) p1) as [[r2 evs2]|] eqn:E2; [|discriminate].
+      destruct (IHk (length buf - p1) ltac:(lia) (hrank (EStar e)) (esize (EStar e)) (EStar e) p1 B1 (le_n _) (le_n _) (le_n _) Hl2 Hr b n _ E2) as (m2 & evs2' & E2').
+      cbn [fst] in E2'. rewrite tr_star in E2'.
+      exists (S (Nat.max m1 m2)). cbn [peg_ev].
+      rewrite (peg_ev_mono _ _ _ _ _ _ _ _ _ (Nat.le_max_l m1 m2) E1).
+      rewrite (peg_ev_mono _ _ _ _ _ _ _ _ _ (Nat.le_max_r m1 m2) E2').
+      destruct r2 as [|q2 f2]; inv H; eexists; reflexivity.
+  - (* EPush *)
+    intros b n r0 H. destruct n as [|n]; [discriminate|]. cbn [peg_ev] in H. rewrite tr_push.
+    assert (Hsz : esize e <= s) by (cbn [esize] in Hs; lia).
+    destruct (ev n e p) as [[r1 evs1]|] eqn:E; [|discriminate].
+    destruct (Hsub e p (le_n _) Hp Hl Hr (fun _ => conj Hh Hsz) b n _ E) as (m & evs' & E'). cbn [fst] in E'.
+    exists (S m). cbn [peg_ev]. rewrite E'. destruct r1; inv H; eexists; reflexivity.
+  - discriminate.
+Qed.
+
+(** every parse of the original grammar is reproduced by the optimised one: same result and forest *)
+Theorem optimize_sound_rules r n x :
+  peg_parse g ptx buf penv n r = Some x -> exists m evs', peg_parse g' ptx buf penv m r = Some (fst x, evs').
+Proof.
+  unfold peg_parse. intros H.
+  assert (Hd : exists body, nth_error g r = Some (RBody body) \/ exists a, nth_error g r = Some (RAct a)).
+  { destruct n as [|n]; [discriminate|]. cbn [peg_ev] in H. destruct (nth_error g r) as [[body|a|]|]; try discriminate; [exists body; auto|exists ENil; right; eauto]. }
+  destruct n as [|n]; [discriminate|]. cbn [peg_ev] in H.
+  destruct (nth_error g r) as [[body|a|]|] eqn:Eg; try discriminate.
+  - destruct (rule_facts _ _ Eg) as [Wl Wr].
+    destruct (ev n body 0) as [[rb evsb]|] eqn:E; [|discriminate].
+    destruct (opt_preserved _ _ _ body 0 (Nat.le_0_l _) (le_n _) (le_n _) (le_n _) Wl Wr (br r) n _ E) as (m & evs' & E').
+    cbn [fst] in E'. exists (S m). cbn [peg_ev]. rewrite g'_nth, Eg, E'. destruct rb; inv H; eexists; reflexivity.
+  - inv H. exists 1. cbn [peg_ev]. rewrite g'_nth, Eg. eexists; reflexivity.
+Qed.
+
 End Opt.
+
+(** * the whole pass *)
+Definition valid_buf (buf : list rune) : Prop := forall c, In c buf -> valid_rune c = true.
+
+Lemma optimize_is_g' g T : fs_table g = (T, true) ->
+  optimize g = g' g T (fun i => nth i (fst (count_rules g)) false).
+Proof.
+  intros E. unfold optimize, g'. rewrite E. cbn [negb]. apply map_ext. intros [i rb]. cbn [fst snd].
+  destruct rb; try reflexivity. unfold tr. destruct (nth i (fst (count_rules g)) false); reflexivity.
+Qed.
+
+Section Whole.
+Local Open Scope nat_scope.
+Variable g : grammar.
+Variable tab : list bool.
+Variable rank : list nat.
+Hypothesis Hwf : wf_b g tab rank = true.
+Hypothesis Hopt : opt_ok_b g = true.
+Variable ptx : nat.
+Variable buf : list rune.
+Variable penv : nat -> nat -> bool.
+Hypothesis Hbuf : valid_buf buf.
+
+(** every parse of the original grammar is a parse of the optimised one with the same result *)
+Theorem optimize_sound r n x :
+  peg_parse g ptx buf penv n r = Some x ->
+  exists m evs', peg_parse (optimize g) ptx buf penv m r = Some (fst x, evs').
+Proof.
+  unfold opt_ok_b in Hopt. destruct (fs_table g) as [T st] eqn:E.
+  apply andb_true_iff in Hopt as [Hst HT]. subst st.
+  rewrite (optimize_is_g' g T E). apply (optimize_sound_rules g T tab rank Hwf HT ptx buf penv Hbuf).
+Qed.
+
+(** and conversely: the optimised grammar has no other results *)
+Theorem optimize_complete r m y :
+  peg_parse (optimize g) ptx buf penv m r = Some y ->
+  exists n evs, peg_parse g ptx buf penv n r = Some (fst y, evs).
+Proof.
+  intros H.
+  assert (Hl : local_ok g tab (EName r) = true).
+  { unfold opt_ok_b in Hopt. destruct (fs_table g) as [T st] eqn:E.
+    apply andb_true_iff in Hopt as [Hst HT]. subst st. rewrite (optimize_is_g' g T E) in H.
+    unfold peg_parse in H. destruct m as [|m]; [discriminate|]. cbn [peg_ev] in H. rewrite (g'_nth g T tab rank Hwf HT penv) in H.
+    cbn [local_ok]. destruct (nth_error g r) as [[b|k|]|]; try reflexivity; discriminate. }
+  destruct (total g ptx buf penv tab rank Hwf _ _ _ (EName r) 0 (Nat.le_0_l _) (le_n _) (le_n _) (le_n _) Hl) as (n & [rx evs] & Ex).
+  destruct (optimize_sound r n _ Ex) as (m' & evs' & E'). cbn [fst] in E'.
+  unfold peg_parse in *. pose proof (peg_ev_det _ _ _ _ _ _ _ _ _ _ H E') as Ey. subst y.
+  exists n, evs. exact Ex.
+Qed.
+End Whole.
